@@ -144,6 +144,18 @@ Section Proofs.
       + intros pb Hpb. inversion Hpb. lia.
   Qed.
 
+  Lemma ht_expand_c14 t h :
+    (forall r h', ht_expand hash f t h = Ok (r, h') -> fst r = false ->
+       snd r = t /\ h_live h' = h_live h /\ exists j, j < ht_prealloc_count t /\ f (h_next h + j) = false) /\
+    (forall j, Nat.eqb (ht_size t) (Z.to_nat ARES__HTABLE_MAX_BUCKETS) = false ->
+       j < ht_prealloc_count t -> f (h_next h + j) = false ->
+       exists h', ht_expand hash f t h = Ok ((false, t), h') /\ h_live h' = h_live h).
+  Proof.
+    split.
+    - intros r h'. apply ht_expand_atomic.
+    - intros j. apply ht_expand_refused.
+  Qed.
+
   (* ---- ares_htable_insert ---- *)
   Definition ht_needs_expand (t : htable) : bool :=
     Nat.ltb (ht_size t * Z.to_nat ARES__HTABLE_EXPAND_PERCENT / 100) (ht_keys t + 1).
